@@ -89,6 +89,7 @@ added = {
  "C40-r8": "the real private/trust.TLSCryptoVerifier on real chains (8 subject ASes x 6 issuing CAs incl. CAs in another AS / ISD x 10 ways of being issued or presented) in front of Server.DRKeyLevel1, instead of a stand-in verifier",
  "C22-r8": "SCMP replies: on every accepted path a fault (one bit of the last MAC byte, which leaves the accumulator chain intact) is planted at every hop field that starts or ends a segment; the error reply raised by the real router is walked back through the real routers under the same accumulator oracle and must reach the source",
  "C35-r8": "structure of the vote list: 7 malformed vote structures per update (one voter repeated, duplicate vote, below quorum, vote without signature, root certificate voting, regular voters on a sensitive update, index out of range) through NotifyTRC and SignedTRC.Verify, and as a fault kind in the catch-up search",
+ "C39-r8": "secret values and level-1 keys for 11 (thorough 22) niche protocol ids that exercise both bytes of the 16-bit field (congruent mod 256 to Generic/SCMP and to each other, byte-swapped pairs, 0x00ff/0xff00/0x8000/0xffff) against the clean-room derivation and in the pairwise domain-separation comparison",
  "C02-r5": "every simulated router recycles one packet object for all packets it processes (pool-style reset), so state left behind by one packet meets the next",
  "C14-r5": "sibling links sharing the internal socket (UDPCanReuseLocal false): receive loop demultiplexes by source address",
  "C48-r4": "rings pre-filled and pre-drained to every fill level / index position before the concurrent phase",
